@@ -62,7 +62,7 @@ TABLE = [
     (r"^melmint::microergs_per_dosc::c0\|index\|index\|tab,", "inv", "the loop above fills the table up to height"),
     (r"^melmint::microergs_per_dosc::c0\|unwrap\|unwrap\|core::slice::<impl \[T\]>::last\(tab\)", "inv", "the table is non-empty after the initial push"),
     (r"^melmint::multiply_frac\|extern\|new\|Ratio::numer\(\$2\),Ratio::denom\(\$2\)", "inv", "the denominator of an existing Ratio is non-zero"),
-    (r"^melmint::process_(swaps|deposits|withdrawals)_for_single_pool::c\d\|index\|index(_mut)?\|\$2\.outputs,[01]$", "selected", "members of the list passed the selection closure, which requires enough outputs (verified here by forcing the selection's length tests)"),
+    (r"^melmint::process_(swaps|deposits|withdrawals)_for_single_pool(::c\d)?\|index\|index(_mut)?\|(\$2|elem\(\$3\))\.outputs,[01]$", "selected", "members of the list passed the selection closure, which requires enough outputs (verified here by forcing the selection's length tests)"),
     (r"^melmint::process_deposits_for_single_pool\|extern\|deposit\|pool_state", "assume", "both deposited totals are > 0 (guard) and a pool with outstanding liquidity has non-zero reserves"),
     (r"^melmint::process_pegging\|extern\|(<num::rational::Ratio<T> as std::ops::Div>::div|implied_price|recip|swap_many)\|", "assume", "built-in pools keep non-zero reserves; the inflator is positive"),
     (r"^melmint::process_pegging\|unwrap\|unwrap\|SmtMapping::get\(state\.pools, PoolKey::new\(", "inv", "create_builtins ran first in preseal_melmint (same tip_902 condition for ERG/SYM)"),
@@ -109,7 +109,8 @@ def _selected_ok(prog, site):
 
 def _swap_guard_ok(site):
     b = site.body
-    atoms = [a for a in q.cmp_atoms(b) if a[1].startswith("Eq(0, core::num::<impl u128>::saturating_add(pool_state.")]
+    PFX = "Eq(0, core::num::<impl u128>::saturating_add(pool_state."
+    atoms = [a for a in q.pick_atoms(b, lambda c: c.startswith(PFX)) if a[1].startswith(PFX)]   # `== 0` or `!= 0` spelling
     sides = {("lefts" if ".lefts" in a[1] else "rights") for a in atoms}
     if sides != {"lefts", "rights"}:
         return False
@@ -147,7 +148,7 @@ def r1_inventory(ctx):
         key = s.key
         hit = None
         for i, (pat, verdict, why) in enumerate(TABLE):
-            if re.search(pat, key):
+            if re.search(re.sub(r"::c\d+", r"::c\\d+", pat), key):   # closure numbering is not part of a site's identity
                 hit = (i, verdict, why)
                 break
         if hit is None:
